@@ -157,7 +157,59 @@ def term_family(tier):
     return [t for t, _ in sq(L_ + l1)]
 
 
+def run_large(case, seed):
+    """beyond the automatic switch (1001 x 1001) Auto() selects Lanczos (declared self-adjoint) / Arnoldi, and PowerIteration for the dominant
+    pair: identity plus rank 3 given by its matmat; the eigenvalues different from 1 are known in closed form"""
+    from mc import large
+    _, psd, algname = case
+    n = 1001
+    mm, U, W = large.lowrank_identity(seed, n, psd, "c10")
+    M = np.eye(n) + U @ W.T
+    A = ops.LinearOperator(np.float64, (n, n), matmat=mm)
+    if psd:
+        A = cola.SelfAdjoint(A)
+    top = large.spectrum(U, W)
+    top = top[np.argsort(-np.abs(top))]
+    vio, ntr = [], 0
+
+    def bad(sym, detail):
+        key = f"C10|large-operator|{sym}|{algname}|{'selfadjoint' if psd else 'general'}"
+        if not any(v["key"] == key for v in vio):
+            vio.append({"key": key, "what": f"eig on a 1001 x 1001 {'self-adjoint' if psd else 'general'} operator with {algname}: {sym}", "detail": detail})
+
+    with warnings.catch_warnings():
+        warnings.simplefilter("ignore")
+        ks = (1, 2, 3)
+        for k in ks:
+            ntr += 1
+            try:
+                vals, V = L.eig(A, k, "LM") if algname == "omitted" else L.eig(A, k, "LM", L.Auto())
+                vals = np.asarray(vals).reshape(-1)
+                Vd = np.asarray(V.to_dense() if isinstance(V, ops.LinearOperator) else V).reshape(n, -1)
+            except Exception as e:
+                bad(f"exc:{type(e).__name__}", {"msg": str(e)[:300], "k": k})
+                continue
+            if vals.shape != (k, ) or Vd.shape != (n, k):
+                bad("shape", {"values": list(vals.shape), "vectors": list(Vd.shape), "k": k})
+                continue
+            if multiset_dist(vals, top[:k]) > 1e-5:
+                bad("wrong-eigenvalues", {"got": [complex(x) for x in vals], "want": [complex(x) for x in top[:k]], "k": k})
+            res = np.linalg.norm(M @ Vd - Vd * vals[None, :], axis=0) / np.maximum(np.linalg.norm(Vd, axis=0), 1e-300)
+            if np.any(res > (1e-2 if k == 1 else 1e-4)):  # k = 1: Auto's PowerIteration(tol=1e-6) stops on the eigenVALUE; as for small operators
+                bad("not-eigenpairs", {"residuals": res.tolist(), "k": k})
+        ntr += 1
+        try:
+            e = complex(np.asarray(L.eigmax(A) if algname == "omitted" else L.eigmax(A, L.Auto())).reshape(-1)[0])
+            if abs(e - top[0]) > 1e-3 * abs(top[0]):
+                bad("eigmax-wrong", {"got": e, "want": complex(top[0])})
+        except Exception as ex:
+            bad(f"eigmax-exc:{type(ex).__name__}", {"msg": str(ex)[:300]})
+    return {"states": len(ks) + 1, "transitions": ntr, "outcome": f"large:{len(vio)}", "violations": vio}
+
+
 def run_case(case, seed):
+    if case[0] == "LARGE":
+        return run_large(case, seed)
     fam, n, algname = case
     vio = []
     ntr = 0
@@ -291,6 +343,9 @@ def cases(tier, seed):
                 if a.endswith("_def") and tier == "quick" and n not in (2, 5):
                     continue
                 out.append([fam, n, a])
+    for psd in (True, False):
+        for a in (("omitted", ) if tier == "quick" else ("omitted", "Auto")):
+            out.append(["LARGE", psd, a])
     tf = term_family(tier)
     for t in tf:
         for a in ("omitted", "Auto", "Eig", "Eigh", "Lanczos_n2", "Arnoldi_n2", "PowerIteration") if tier == "quick" else ALGS:
@@ -307,7 +362,7 @@ def describe(tier, seed):
     return {
         "bound": "families {self-adjoint definite / indefinite (real, complex), general real with complex-conjugate pairs, complex, Diagonal "
                  "unsorted with negatives (real, complex), Triangular lower / upper, Identity; self-adjoint indefinite and general families at scale 2^-45 / 2^40} x n in " + str(_DESC.get("sizes"))
-                 + "; operator terms of every kind with an inverse rule plus symmetric / declared self-adjoint leaves, depth-1 nesting (T, H, scalar, no_dispatch, +, @, kron, "
+                 + "; 1001 x 1001 identity-plus-rank-3 operators (self-adjoint / general) beyond the automatic switch; operator terms of every kind with an inverse rule plus symmetric / declared self-adjoint leaves, depth-1 nesting (T, H, scalar, no_dispatch, +, @, kron, "
                  "kronsum, BlockDiag), judged when the moduli are separated and the eigenvectors well conditioned; x ALL 1<=k<=n x {LM, SM} x 11 algorithm settings (iteration caps n, n+2, default 1000), eigmax / eigmin",
         "alphabet": _DESC,
         "oracle": "returned values = the k largest / smallest-modulus eigenvalues of the prescribed spectrum (multiset, 1e-7 ||A||); every pair "
